@@ -47,6 +47,8 @@ func runStatic(prog *Prog, sc StaticCheck) *StaticResult {
 		return runTypeImmutable(prog, sc)
 	case "forbid-map-range":
 		return runForbidMapRange(prog, sc)
+	case "global-state":
+		return runGlobalState(prog, sc)
 	case "call-order":
 		return runCallOrder(prog, sc)
 	case "import-check":
@@ -1114,5 +1116,132 @@ func runForbidMapRange(prog *Prog, sc StaticCheck) *StaticResult {
 		}
 	}
 	res.Samples = append(res.Samples, map[string]interface{}{"obligation": "no range over a map in " + sc.Args["funcs"], "backend": "static scan"})
+	return res
+}
+
+// runGlobalState: inventory of mutable package-level state. In the listed packages, the only package-level variables
+// that any function other than a package initialiser writes — by a store, by updating or deleting from the map it
+// holds, by appending through it, or by handing its address to a call — are the ones on the allow list (each of them
+// is covered by a lock or single-assignment argument of its own elsewhere). A new cache or memo table introduced at
+// package level therefore fails this obligation until it is listed and argued for. args: pkgs, allow ("pkg.name").
+func runGlobalState(prog *Prog, sc StaticCheck) *StaticResult {
+	res := &StaticResult{Name: sc.Name, Kind: sc.Kind}
+	pkgs := map[string]bool{}
+	for _, p := range strings.Split(sc.Args["pkgs"], ",") {
+		if p = strings.TrimSpace(p); p != "" {
+			pkgs[modPath+"/"+p] = true
+		}
+	}
+	allow := map[string]bool{}
+	for _, a := range strings.Split(sc.Args["allow"], ",") {
+		if a = strings.TrimSpace(a); a != "" {
+			allow[a] = true
+		}
+	}
+	written := map[string]string{}
+	note := func(g *ssa.Global, how string, fn *ssa.Function, pos token.Pos) {
+		if g.Pkg == nil || !pkgs[g.Pkg.Pkg.Path()] {
+			return
+		}
+		key := g.Pkg.Pkg.Name() + "." + g.Name()
+		if _, ok := written[key]; !ok {
+			written[key] = fmt.Sprintf("%s by %s at %s", how, fn.String(), posOf(prog, pos))
+		}
+	}
+	syncType := func(t types.Type) bool {
+		s := t.String()
+		return strings.HasPrefix(s, "sync.") || strings.HasPrefix(s, "*sync.") || strings.HasPrefix(s, "sync/atomic.") || strings.HasPrefix(s, "*sync/atomic.")
+	}
+	nfn := 0
+	for fn := range ssautil.AllFunctions(prog.SSA) {
+		if fn.Blocks == nil {
+			continue
+		}
+		pk := fn.Pkg
+		for q := fn; pk == nil && q != nil; q = q.Parent() {
+			pk = q.Pkg
+		}
+		if pk == nil || !strings.HasPrefix(pk.Pkg.Path(), modPath) {
+			continue
+		}
+		top := fn
+		for top.Parent() != nil {
+			top = top.Parent()
+		}
+		if top.Name() == "init" || strings.HasPrefix(top.Name(), "init#") {
+			continue
+		}
+		nfn++
+		for _, b := range fn.Blocks {
+			for _, in := range b.Instrs {
+				switch x := in.(type) {
+				case *ssa.Store:
+					if g, ok := x.Addr.(*ssa.Global); ok {
+						note(g, "stored to", fn, x.Pos())
+					}
+					// store through a field/element address rooted at a global
+					root := x.Addr
+					for depth := 0; depth < 8; depth++ {
+						switch a := root.(type) {
+						case *ssa.FieldAddr:
+							root = a.X
+							continue
+						case *ssa.IndexAddr:
+							root = a.X
+							continue
+						}
+						break
+					}
+					if g, ok := root.(*ssa.Global); ok && root != x.Addr {
+						note(g, "written through", fn, x.Pos())
+					}
+				case *ssa.MapUpdate:
+					if u, ok := x.Map.(*ssa.UnOp); ok {
+						if g, ok := u.X.(*ssa.Global); ok {
+							note(g, "map updated", fn, x.Pos())
+						}
+					}
+				case ssa.CallInstruction:
+					c := x.Common()
+					if bi, ok := c.Value.(*ssa.Builtin); ok && (bi.Name() == "delete" || bi.Name() == "clear") && len(c.Args) > 0 {
+						if u, ok := c.Args[0].(*ssa.UnOp); ok {
+							if g, ok := u.X.(*ssa.Global); ok {
+								note(g, "map entries removed", fn, in.Pos())
+							}
+						}
+					}
+					for _, a := range c.Args {
+						if g, ok := a.(*ssa.Global); ok && !syncType(g.Type().Underlying().(*types.Pointer).Elem()) {
+							note(g, "address passed to a call", fn, in.Pos())
+						}
+					}
+				}
+			}
+		}
+	}
+	for key, how := range written {
+		res.Obligations++
+		if allow[key] {
+			res.Discharged++
+			continue
+		}
+		res.Failures = append(res.Failures, fmt.Sprintf("package variable %s is %s: mutable package-level state that is not on the allow list", key, how))
+	}
+	for a := range allow {
+		if _, ok := written[a]; !ok {
+			res.Obligations++
+			res.Failures = append(res.Failures, "binding: allow-listed variable "+a+" is not written anywhere any more (stale allow list)")
+		}
+	}
+	if len(written) == 0 && len(allow) == 0 {
+		res.Obligations++
+		res.Discharged++
+	}
+	var ws []string
+	for k := range written {
+		ws = append(ws, k)
+	}
+	sort.Strings(ws)
+	res.Samples = append(res.Samples, map[string]interface{}{"obligation": "package variables written outside initialisers in " + sc.Args["pkgs"] + " are exactly the allow-listed ones", "backend": "static store scan", "functions": nfn, "written": ws})
 	return res
 }
